@@ -292,3 +292,6 @@ fn test_max_headers_limit() {
         ErrorKind::InvalidResponse(InvalidResponseKind::Header)
     ));
 }
+
+#[cfg(kani)]
+include!(concat!(env!("ATTOHTTPC_VERIF_HARNESS"), "/response.rs"));
